@@ -176,35 +176,38 @@ def run(ctx):
             pi.loc(), instance='enable-conditions')
   ctx.check(has(lambda cs: is_dr(cs, False)),
             'C19.guards', construct(pi), 'an unknown __gin__ feature is rejected', 'unknown __gin__ features are no longer rejected', pi.loc(), instance='unknown-feature')
-  # the feature compared is *everything* after `__gin__.` (so `__gin__.dynamic_registration.x` is an unknown feature, not the known one)
-  fdefs = [a for a in walk_local(pi.node) if isinstance(a, ast.Assign) and any(
-      (isinstance(t, ast.Name) and t.id == 'feature') or (isinstance(t, ast.Tuple) and any(isinstance(e, ast.Name) and e.id == 'feature' for e in t.elts))
-      for t in a.targets)]
-  for a in fdefs:
-    t0 = a.targets[0]
-    v = a.value
-    vt = u(v).replace(' ', '').replace('"', "'")
-    M = 'statement.module'
-    verdict = None
-    if isinstance(t0, ast.Tuple):
-      idx = [i for i, e in enumerate(t0.elts) if isinstance(e, ast.Name) and e.id == 'feature'][0]
-      if len(t0.elts) == 2 and idx == 1 and vt in ("%s.split('.',maxsplit=1)" % M, "%s.split('.',1)" % M):
-        verdict = True
-      elif len(t0.elts) == 3 and idx == 2 and vt == "%s.partition('.')" % M:
-        verdict = True
-      elif 'rsplit' in vt or 'rpartition' in vt:
-        verdict = False
-    else:
-      if vt in ("%s.split('.',maxsplit=1)[1]" % M, "%s.split('.',1)[1]" % M, "%s.partition('.')[2]" % M, "%s[len('__gin__.'):]" % M, "%s[8:]" % M,
-                "%s.removeprefix('__gin__.')" % M, "%s.split('.',maxsplit=1)[-1]" % M, "%s.split('.',1)[-1]" % M):
-        verdict = True
-      elif vt in ("%s.split('.')[1]" % M, "%s.split('.')[-1]" % M) or 'rsplit' in vt or 'rpartition' in vt:
-        verdict = False
-    if verdict is None:
-      raise AnalysisError('process_import derives the __gin__ feature as `%s`: not a form this rule can read' % u(a))
-    ctx.check(verdict, 'C19.guards', construct(pi), 'the feature name is everything after `__gin__.`',
-              'the feature is derived as `%s`, one component of the module path: `from __gin__.dynamic_registration import x` (or `__gin__.x.dynamic_registration`) '
-              'is taken for the enabling statement instead of being rejected as an unknown feature' % u(a), pi.loc(a), instance='feature-whole')
+  def _feature_whole():
+    # the feature compared is *everything* after `__gin__.` (so `__gin__.dynamic_registration.x` is an unknown feature, not the known one)
+    fdefs = [a for a in walk_local(pi.node) if isinstance(a, ast.Assign) and any(
+        (isinstance(t, ast.Name) and t.id == 'feature') or (isinstance(t, ast.Tuple) and any(isinstance(e, ast.Name) and e.id == 'feature' for e in t.elts))
+        for t in a.targets)]
+    for a in fdefs:
+      t0 = a.targets[0]
+      v = a.value
+      vt = u(v).replace(' ', '').replace('"', "'")
+      M = 'statement.module'
+      verdict = None
+      if isinstance(t0, ast.Tuple):
+        idx = [i for i, e in enumerate(t0.elts) if isinstance(e, ast.Name) and e.id == 'feature'][0]
+        if len(t0.elts) == 2 and idx == 1 and vt in ("%s.split('.',maxsplit=1)" % M, "%s.split('.',1)" % M):
+          verdict = True
+        elif len(t0.elts) == 3 and idx == 2 and vt == "%s.partition('.')" % M:
+          verdict = True
+        elif 'rsplit' in vt or 'rpartition' in vt:
+          verdict = False
+      else:
+        if vt in ("%s.split('.',maxsplit=1)[1]" % M, "%s.split('.',1)[1]" % M, "%s.partition('.')[2]" % M, "%s[len('__gin__.'):]" % M, "%s[8:]" % M,
+                  "%s.removeprefix('__gin__.')" % M, "%s.split('.',maxsplit=1)[-1]" % M, "%s.split('.',1)[-1]" % M):
+          verdict = True
+        elif vt in ("%s.split('.')[1]" % M, "%s.split('.')[-1]" % M) or 'rsplit' in vt or 'rpartition' in vt:
+          verdict = False
+      if verdict is None:
+        raise AnalysisError('process_import derives the __gin__ feature as `%s`: not a form this rule can read' % u(a))
+      ctx.check(verdict, 'C19.guards', construct(pi), 'the feature name is everything after `__gin__.`',
+                'the feature is derived as `%s`, one component of the module path: `from __gin__.dynamic_registration import x` (or `__gin__.x.dynamic_registration`) '
+                'is taken for the enabling statement instead of being rejected as an unknown feature' % u(a), pi.loc(a), instance='feature-whole')
+  ctx.section(_feature_whole)
+
   # which module object a statement binds: the leaf module for `from` / `as` forms, the top-level package for a plain `import a.b.c`
   imps = [cc for cc in walk_local(pi.node) if isinstance(cc, ast.Call) and u(cc.func) in ('__import__', 'importlib.import_module', 'import_module')]
   if not imps:
@@ -359,30 +362,32 @@ def run(ctx):
             'the import source of a selector is not computed as a common prefix (%s): with `import a.x.c` and `import a.y.c` the config string '
             'attributes the configurable to a sibling module and the emitted selector resolves to a different object' % why, isf.loc(), instance='common-prefix')
 
-  # the statement and the selector split the name at one index: module = parts[:k], selector = attr_names[k:]
-  n_split = 0
-  for r_ in [n for n in g_is.live_nodes() if n.kind == 'return' and isinstance(n.ast.value, ast.Tuple) and len(n.ast.value.elts) == 2]:
-    st_e, sel_e = [expand_expr(f_is[r_.id], e) for e in r_.ast.value.elts]
-    cut = [x for x in ast.walk(sel_e) if isinstance(x, ast.Subscript) and u(x.value) == 'attr_names' and isinstance(x.slice, ast.Slice)
-           and x.slice.upper is None and x.slice.lower is not None]
-    if len(cut) != 1:
-      raise AnalysisError('_import_source returns the selector `%s`: not a tail slice of attr_names' % u(sel_e))
-    k = cut[0].slice.lower
-    if isinstance(k, ast.Constant):
-      continue        # from-imports and aliased imports: the bound name is one component
-    n_split += 1
-    heads = [x for x in ast.walk(st_e) if isinstance(x, ast.Subscript) and isinstance(x.slice, ast.Slice) and x.slice.lower is None
-             and x.slice.upper is not None and u(x.slice.upper) == u(k)]
-    replaced = any(isinstance(x, ast.Call) and isinstance(x.func, ast.Attribute) and x.func.attr == '_replace' and any(kw.arg == 'module' for kw in x.keywords)
-                   for x in ast.walk(st_e)) or any(isinstance(x, ast.Call) and u(x.func).endswith('ImportStatement') for x in ast.walk(st_e))
-    unchanged = u(st_e) == isf.params[1]
-    if not unchanged and not (heads and replaced):
-      raise AnalysisError('_import_source returns the statement `%s` with the selector tail `%s`: not a form this rule can read' % (u(st_e)[:80], u(sel_e)))
-    ctx.check(not unchanged, 'C19.import-source', construct(isf),
-              'a selector that leaves the imported path early is attributed to the module prefix it actually followed (module = parts[:%s], selector = attr_names[%s:])' % (u(k), u(k)),
-              'the selector tail is `%s` but the import statement is returned with its whole module path: for `import a.b.c` and the name `a.b.f` the config string '
-              'writes the selector `a.b.c.f`, which does not resolve' % u(sel_e), isf.loc(r_.ast), instance='split-agrees')
-  ctx.expect_at_least('returns of _import_source that split at a computed index', n_split, 1)
+  def _split_agrees():
+    # the statement and the selector split the name at one index: module = parts[:k], selector = attr_names[k:]
+    n_split = 0
+    for r_ in [n for n in g_is.live_nodes() if n.kind == 'return' and isinstance(n.ast.value, ast.Tuple) and len(n.ast.value.elts) == 2]:
+      st_e, sel_e = [expand_expr(f_is[r_.id], e) for e in r_.ast.value.elts]
+      cut = [x for x in ast.walk(sel_e) if isinstance(x, ast.Subscript) and u(x.value) == 'attr_names' and isinstance(x.slice, ast.Slice)
+             and x.slice.upper is None and x.slice.lower is not None]
+      if len(cut) != 1:
+        raise AnalysisError('_import_source returns the selector `%s`: not a tail slice of attr_names' % u(sel_e))
+      k = cut[0].slice.lower
+      if isinstance(k, ast.Constant):
+        continue        # from-imports and aliased imports: the bound name is one component
+      n_split += 1
+      heads = [x for x in ast.walk(st_e) if isinstance(x, ast.Subscript) and isinstance(x.slice, ast.Slice) and x.slice.lower is None
+               and x.slice.upper is not None and u(x.slice.upper) == u(k)]
+      replaced = any(isinstance(x, ast.Call) and isinstance(x.func, ast.Attribute) and x.func.attr == '_replace' and any(kw.arg == 'module' for kw in x.keywords)
+                     for x in ast.walk(st_e)) or any(isinstance(x, ast.Call) and u(x.func).endswith('ImportStatement') for x in ast.walk(st_e))
+      unchanged = len(isf.params) >= 2 and u(st_e) == isf.params[-2]
+      if not unchanged and not (heads and replaced):
+        raise AnalysisError('_import_source returns the statement `%s` with the selector tail `%s`: not a form this rule can read' % (u(st_e)[:80], u(sel_e)))
+      ctx.check(not unchanged, 'C19.import-source', construct(isf),
+                'a selector that leaves the imported path early is attributed to the module prefix it actually followed (module = parts[:%s], selector = attr_names[%s:])' % (u(k), u(k)),
+                'the selector tail is `%s` but the import statement is returned with its whole module path: for `import a.b.c` and the name `a.b.f` the config string '
+                'writes the selector `a.b.c.f`, which does not resolve' % u(sel_e), isf.loc(r_.ast), instance='split-agrees')
+    ctx.expect_at_least('returns of _import_source that split at a computed index', n_split, 1)
+  ctx.section(_split_agrees)
 
 
 def import_aliases(ctx, rule):
